@@ -87,3 +87,7 @@ Definition ids_match (ts : list table) : bool :=
 Definition run_C17 (t : table) (c : N) : val :=
   VL [VOpt (fun b => VS [b]) (lookupNb c (t_tt t));
       VB (memN c (t_starts t)); VB (memN c (t_stops t)); VB (memN c (t_astarts t)); VB (memN c (t_astops t))].
+
+(* harness entry: the whole inverse table of gcode(id), rows and codons in the order of the regenerated table *)
+Definition run_C17_ttinv (t : table) : val :=
+  VL (map (fun e : byte * list N => VL [VS [fst e]; VZs (map Z.of_N (snd e))]) (t_ttinv t)).
